@@ -11,13 +11,15 @@ import numpy as np
 def f(bits):
     return struct.unpack("<d", struct.pack("<Q", int(bits)))[0]
 
-def close(a, b, scale):
+def close(a, b, scale, xmax=0.0):
     if not math.isfinite(a) or not math.isfinite(b):
         # inf vs NaN is not distinguished: libm's hypot(inf, NaN) = inf has no counterpart in Lean's Float
         return (not math.isfinite(a)) and (not math.isfinite(b))
     if a == b:
         return True
-    return abs(a - b) <= 1e-9 * max(abs(a), abs(b)) + 1e-11 * scale
+    # last term: a residual such as hypot(..) - hypot(..) at coordinates of magnitude xmax inherits the
+    # last-ulp difference between the two libm implementations of hypot (about 4.5 ulp(xmax) allowed)
+    return abs(a - b) <= 1e-9 * max(abs(a), abs(b)) + 1e-11 * scale + 1e-15 * xmax
 
 def parse_iters(s):
     out = {}
@@ -34,7 +36,9 @@ def parse_case(line):
     """Pull what the certificates need out of the S record: λ is not in the record (constant);
     steps per call, svd per call, number of variables."""
     t = line.split(" ")
-    n = int(t[t.index("G") + 1])
+    gi = t.index("G")
+    n = int(t[gi + 1])
+    parse_case.guesses = [f(t[gi + 2 + 2 * q + 1]) for q in range(n)]
     ti = len(t) - 1 - t[::-1].index("T")
     i = ti + 2
     calls = []
@@ -98,6 +102,7 @@ def main():
             if w:
                 S["warnings_seen"][w.split(":")[1]] += 1
         n, calls = parse_case(cases[idx])
+        guesses0 = parse_case.guesses
         S["levels_hist"][len(calls)] += 1
         extreme = False
         for tok in cases[idx].split(" T ")[0].split(" "):
@@ -139,14 +144,20 @@ def main():
                     bad(idx, f"shape of residual / pattern differs at {key}"); ok = False; break
                 fin = [abs(v) for v in ri if math.isfinite(v)] + [abs(v) for _, _, v in ji if math.isfinite(v)]
                 scale = max(fin + [1.0])
+                # magnitude of the coordinates at this iteration: guesses plus the recorded steps so far
+                xs_k = list(guesses0)
+                for st in calls[key[0]][1][:key[1]]:
+                    if st is not None and len(st) == len(xs_k):
+                        xs_k = [p_ + q_ for p_, q_ in zip(xs_k, st)]
+                xmax = max([abs(v) for v in xs_k if math.isfinite(v)] + [0.0])
                 if scale > 1e100:
                     continue  # overflow territory: Lean has no overflow-safe hypot
                 for a, b in zip(ri, rm):
-                    if not close(a, b, scale):
+                    if not close(a, b, scale, xmax):
                         bad(idx, f"residual differs at {key}: impl {a!r} model {b!r}"); ok = False; break
                 if not ok: break
                 for (r_, c_, a), (_, _, b) in zip(ji, jm):
-                    if not close(a, b, scale):
+                    if not close(a, b, scale, xmax):
                         bad(idx, f"jacobian cell ({r_},{c_}) differs at {key}: impl {a!r} model {b!r}"); ok = False; break
                 if not ok: break
                 S["iterations_checked"] += 1
@@ -206,7 +217,7 @@ def main():
                         e2 = max(e2, np.linalg.norm(J @ V[:, kk]) / smax)
                     # the contract the Lean theorems use (GN.SvdSpec): VᵀJᵀJV = diag(σ², 0…)
                     sp = np.zeros(V.shape[1]); sp[:len(sigma)] = sigma ** 2
-                    e3 = np.abs(V.T @ (J.T @ J) @ V - np.diag(sp)).max() / (smax * smax) if V.size else 0.0
+                    e3 = np.abs(V.T @ (J.T @ J) @ V - np.diag(sp)).max() / max(smax * smax, 1e-300) if V.size else 0.0
                     S["max_svd_diag_error"] = max(S.get("max_svd_diag_error", 0.0), float(e3))
                     e2 = max(e2, e3)
                     mono = all(sigma[i] >= sigma[i + 1] - 1e-12 * smax for i in range(len(sigma) - 1)) and all(s >= 0 for s in sigma)
